@@ -48,6 +48,9 @@ var Shapes = map[string][]string{
 	// two outputs of ONE transaction to different addresses with different values: spends
 	// take two inputs from the same previous transaction
 	"same-tx-two-outs": {"x.p2.300000000.0.200000000.1", "d"},
+	// two coins that each exceed small requests, and no small coins: a second draft has to
+	// move on to the other big coin
+	"two-big": {"x.pv.300000000.0", "d", "x.pv.500000000.1", "d"},
 }
 
 type Opts struct{}
@@ -342,9 +345,9 @@ func (r *run) sequence() {
 	sa, _ := massutil.NewAddressWitnessScriptHash(r.w.SHash, config.ChainParams)
 	S := sa.EncodeAddress()
 	_, total := r.coins("")
-	for _, frac := range []int64{4, 2} {
-		a1 := total / frac
-		if a1 < 100000 {
+	firsts := []int64{total / 4, total / 2, 10000000, 150000000}
+	for _, a1 := range firsts {
+		if a1 < 100000 || a1 > total {
 			continue
 		}
 		r.n++
@@ -355,22 +358,33 @@ func (r *run) sequence() {
 		}
 		t1, _ := decode(h1)
 		reserved := map[wire.OutPoint]bool{}
+		coins, _ := r.coins("")
+		free := total
 		for _, ti := range t1.TxIn {
 			reserved[ti.PreviousOutPoint] = true
+			if ci := coins[ti.PreviousOutPoint]; ci != nil && ci.eligible {
+				free -= ci.c.Value
+			}
 		}
-		for _, a2 := range []int64{70000, total / 3, total - a1} {
+		maxStd, _ := blockchain.CalcMinRequiredTxRelayFee(int64(blockchain.GetMaxStandardTxSize()), massutil.MinRelayTxFee())
+		for _, a2 := range []int64{70000, 10000000, total / 3, total - a1} {
 			if a2 <= 0 {
 				continue
 			}
 			r.n++
+			what := fmt.Sprintf("second AutoCreateRawTransaction(%d) after an outstanding draft of %d", a2, a1)
 			h2, fee2, err := W.AutoCreateRawTransaction(map[string]massutil.Amount{S: amt(a2)}, 0, amt(0), "", "", nil)
 			if err != nil {
 				r.outc["seq-second-err:"+err.Error()]++
+				// clear case: what the first draft left free covers the request plus any fee
+				if free >= a2+maxStd.IntValue()+100000 && a2 > 30000 && len(r.eligibleList("")) < 100 {
+					r.bad("%s failed (%v) although the coins the first draft did not reserve (%d) cover the outputs plus any fee", what, err, free)
+				}
 				continue
 			}
 			r.outc["seq-second-ok"]++
 			t2, _ := decode(h2)
-			r.checkBuilt(fmt.Sprintf("second AutoCreateRawTransaction(%d) after an outstanding draft of %d", a2, a1), t2, fee2, map[string]int64{S: a2}, 0, "", "", true, reserved, nil, 0, nil)
+			r.checkBuilt(what, t2, fee2, map[string]int64{S: a2}, 0, "", "", true, reserved, nil, 0, nil)
 			W.ClearUsedUTXOMark(t2)
 		}
 		W.ClearUsedUTXOMark(t1)
